@@ -84,10 +84,41 @@ func content(dir []entry, name string) ([]byte, bool) {
 	return nil, false
 }
 
+// startupAppended: the bytes appended to audit.log during start-up, in order.
+func startupAppended(c caseDesc) []byte {
+	var b []byte
+	for _, s := range c.Startup {
+		if s.Op == "append" {
+			b = append(b, s.Data.bytes()...)
+		}
+	}
+	return b
+}
+
+// effectiveDir: the directory with what was appended to audit.log during start-up counted as part of audit.log.
+// Judged at the first Write event processed after start-up (runOne sends one), the property demands of a case with
+// start-up appends exactly what it demands of this directory without them: the older files' lines, then every
+// complete line of audit.log - whether the start-up read or that first event delivers a line is left open.
+func effectiveDir(c caseDesc) []entry {
+	extra := startupAppended(c)
+	if len(extra) == 0 {
+		return c.Dir
+	}
+	out := make([]entry, len(c.Dir))
+	copy(out, c.Dir)
+	for i, e := range out {
+		if e.Name == "audit.log" && !e.Dir {
+			out[i].Data = mkBlob(append(e.Data.bytes(), extra...))
+		}
+	}
+	return out
+}
+
 func expectedInit(c caseDesc) [][]string {
 	var out [][]string
-	for _, name := range expectedOrder(c.Dir) {
-		b, _ := content(c.Dir, name)
+	dir := effectiveDir(c)
+	for _, name := range expectedOrder(dir) {
+		b, _ := content(dir, name)
 		ls, _ := completeLines(b)
 		out = append(out, ls)
 	}
@@ -97,7 +128,7 @@ func expectedInit(c caseDesc) [][]string {
 // expectedSteps: per operation the lines it completes. pend is the unterminated rest in the
 // current audit.log; rotation, re-creation and truncation discard it.
 func expectedSteps(c caseDesc) [][]string {
-	live, _ := content(c.Dir, "audit.log")
+	live, _ := content(effectiveDir(c), "audit.log")
 	_, pend := completeLines(live)
 	pend = append([]byte(nil), pend...)
 	out := make([][]string, 0, len(c.Ops))
@@ -209,13 +240,25 @@ func judge(c caseDesc, o observation) []finding {
 		}
 	}
 	// start-up: order in which the files were read, then the lines
-	if !eqStrs(o.InitOpens, want) {
-		if sortOK || !eqStrs(o.InitOpens, o.Sorted) {
+	opens := o.InitOpens
+	gotInit := flat(o.Init)
+	if len(c.Startup) > 0 {
+		// with activity during start-up the lines count up to the first Write event after start-up, and a file
+		// opened once more meanwhile is judged by the lines that produced, not by the Open
+		opens = firstOccurrences(opens)
+		gotInit = append(gotInit, o.Flush...)
+	}
+	if !eqStrs(opens, want) {
+		if sortOK || !eqStrs(opens, o.Sorted) {
 			fs = append(fs, finding{"initial:order", fmt.Sprintf("initial files were read in the order %v, oldest first is %v", o.InitOpens, want)})
 		}
 		// otherwise: the consequence of the wrong sort reported above
-	} else if k, what := classify(flat(expectedInit(c)), flat(o.Init)); k != "" {
-		fs = append(fs, finding{"initial:" + k, "start-up: " + what})
+	} else if k, what := classify(flat(expectedInit(c)), gotInit); k != "" {
+		if len(c.Startup) > 0 {
+			fs = append(fs, finding{"startup-activity:" + k, "events (and appends) arriving during start-up; up to the first Write event after start-up: " + what})
+		} else {
+			fs = append(fs, finding{"initial:" + k, "start-up: " + what})
+		}
 	}
 	// tailing: operation by operation
 	exp := expectedSteps(c)
@@ -237,9 +280,22 @@ func judge(c caseDesc, o observation) []finding {
 	return fs
 }
 
+func firstOccurrences(xs []string) []string {
+	var out []string
+	for _, x := range xs {
+		if indexOf(out, x) < 0 {
+			out = append(out, x)
+		}
+	}
+	return out
+}
+
 // truncateBeforeAnyWrite: audit.log holds complete lines at start, and it is truncated before
 // anything was written to it and before any rotation.
 func truncateBeforeAnyWrite(c caseDesc) bool {
+	if len(c.Startup) > 0 {
+		return false // a Write event was processed after start-up
+	}
 	live, _ := content(c.Dir, "audit.log")
 	if ls, _ := completeLines(live); len(ls) == 0 {
 		return false
